@@ -713,7 +713,7 @@ int main(void)
 		if (pid == 0) {
 			if (errf != NULL)
 				dup2(fileno(errf), 2);
-			alarm(30);
+			alarm(8);
 			run_case(line);
 			fflush(stdout);
 			_exit(0);
